@@ -264,6 +264,7 @@ class Kernel:
         self.task_seq: Dict[str, list] = {}
         self.preempts = 0
         self.last: Optional[SimThread] = None
+        self.drain_deadline: Optional[int] = None
 
     def count(self, key: str, n: int = 1):
         self.counts[key] = self.counts.get(key, 0) + n
@@ -376,6 +377,13 @@ class Kernel:
         return fired
 
     def _choose(self, me: Optional[SimThread]) -> Optional[SimThread]:
+        if self.drain_deadline is not None and self.ndec > self.drain_deadline:
+            # bounded drain: hand the baton back to the draining user thread (forced, deterministic in the decision count)
+            self.drain_deadline = None
+            for t in self.threads:
+                if t.state == DRAINING:
+                    t.state = RUNNABLE
+                    return t
         if self.timers:
             self._fire_due(jump=False)
         runnable = [t for t in self.threads if t.state == RUNNABLE]
@@ -498,13 +506,20 @@ class Kernel:
         heapq.heappush(self.timers, (me.wake_at[0], self.tseq, me, self.tseq))
         self.switch(me)
 
-    def drain(self):
-        """User thread: let every other thread run until the system is quiescent."""
+    def drain(self, max_decisions: int = 20000) -> bool:
+        """User thread: let every other thread run until the system is quiescent (bounded: a graph that was not stopped keeps
+        stepping in virtual time for ever). Returns True when quiescence was reached."""
         me = self.cur()
+        start = self.ndec
         while True:
             others = [t for t in self.threads if t is not me and t.state in (RUNNABLE, SLEEPING)]
             if not others:
-                return
+                return True
+            if self.ndec - start > max_decisions:
+                self.count("drain_gave_up")
+                self.drain_deadline = None
+                return False
+            self.drain_deadline = start + max_decisions
             me.state = DRAINING
             self.switch(me)
 
